@@ -109,7 +109,7 @@ def run_case(cid, rng, workdir):
     if cid[0] == "lib":
         return run_lib(cid, rng, workdir, res)
     case = paramcase.build(rng, profile="full", nmin=1, nmax=7, max_links=4,
-                           link_opts={"p_remove": 0.05, "p_cond": 0.25, "p_edge": 0.15, "linktypes": True})
+                           link_opts={"p_remove": 0.08, "p_cond": 0.25, "p_edge": 0.15, "linktypes": True, "p_log": 0.25})
     ev = PC.evaluate(case, workdir)
     res["sig"] = sig_of([case["files"], case["graph"]])
     res["sample"] = case["descr"]
@@ -123,11 +123,18 @@ def run_case(cid, rng, workdir):
 
     passed_links = ("links", "exit") in run["events"]
     if run["status"] != "ok":
-        res["status"] = "rejected"
-        if passed_links:
-            violation(res, "no-file-after-link-stage:%s" % run.get("exc_type"),
-                      "input passed mapping and link application but gen_params raised %s" % run["error"], w())
-        return res
+        if passed_links and os.path.exists(ev["out"]):
+            # the program stopped *after* writing its output (e.g. while printing log messages): the write clause
+            # holds; the file is still compared below
+            bump(res, "raised_after_writing")
+            note(res, "rejections", "after writing: " + run["error"][:90])
+            ev["obs"] = __import__("pvmon.oracle.itp_min", fromlist=["x"]).read_itp(ev["out"])
+        else:
+            res["status"] = "rejected"
+            if passed_links:
+                violation(res, "no-file-after-link-stage:%s" % run.get("exc_type"),
+                          "input passed mapping and link application but gen_params raised %s and wrote no file" % run["error"], w())
+            return res
     if not os.path.exists(ev["out"]):
         violation(res, "no-file-after-success", "gen_params returned but %s does not exist" % ev["out"], w())
         return res
